@@ -33,7 +33,8 @@ EntryT = Ty.Tuple([LegsL, Ty.Int, PathL])
 TableT = Ty.Map(Ty.Int, EntryT)
 ItemT = Ty.Tuple([Ty.Int, EntryT])
 PairT = Ty.Tuple([ItemT, ItemT])
-ProcT = ObjT("ContractionProcessor", {"nodes": Ty.Map(Ty.Int, LegsL), "appearances": Ty.List(Ty.Int), "sizes": Ty.List(Ty.Int)})
+ProcT = ObjT("ContractionProcessor", {"nodes": Ty.Map(Ty.Int, LegsL), "appearances": Ty.List(Ty.Int), "sizes": Ty.List(Ty.Int), "edges": Ty.Map(Ty.Int, Ty.Set(Ty.Int)),
+                                      "ssa": Ty.Int, "ssa_path": Ty.List(Ty.Tuple([Ty.Int, Ty.Int])), "flops": Ty.Int})
 
 
 def cost_fn(*a):  # placeholder callable: the value parse_minimize_for_optimal returns
@@ -103,6 +104,6 @@ dp.abstract_stmts = {
     "new_path = (*ipath": ["new_path"],
     "(_, _, bitpath), = ": ["_", "bitpath"],
     "((_, _, bitpath),) = ": ["_", "bitpath"],
-    "for subgraph_i, subgraph_j in bitpath:": ["subgraph_i", "subgraph_j", "i", "j", "k", "termmap", "self.nodes"],
+    "for subgraph_i, subgraph_j in bitpath:": ["subgraph_i", "subgraph_j", "i", "j", "k", "termmap", "self.nodes", "self.edges", "self.ssa", "self.ssa_path", "self.flops"],
 }
 CONTRACTS = [dp]
